@@ -23,8 +23,14 @@ def check_fn_tables(prog, res, rule, fns, alias=None, only_ok=False):
 
 
 def _flat(rows):
-    """row values may be structured (lists of [place, value] pairs): render them as strings for the diff"""
-    return [[r[0], r[1] if isinstance(r[1], str) else json.dumps(r[1])] for r in rows]
+    """rows are [guards, value]; values (and, for tables of tables, whole rows) may be structured: render as strings"""
+    out = []
+    for r in rows:
+        if isinstance(r, list) and len(r) == 2 and isinstance(r[0], list) and all(isinstance(x, str) for x in r[0]):
+            out.append([r[0], r[1] if isinstance(r[1], str) else json.dumps(r[1])])
+        else:
+            out.append([[], json.dumps(r)])
+    return out
 
 
 def diff_tables(got, want):
